@@ -3,6 +3,7 @@
 package checks
 
 import (
+	"github.com/compose-spec/compose-go/v2/interpolation"
 	"gopkg.in/yaml.v3"
 
 	"encoding/json"
@@ -325,6 +326,18 @@ func C08(c *core.Ctx) {
 						c.Report(core.Finding{Sig: "parsed-rejected", Detail: fmt.Sprintf("%s loads from text but not as a parsed document: %v", escaped, e1), Replay: rep})
 					case e2 != nil || projDump(p1) != projDump(p2):
 						c.Report(core.Finding{Sig: "parsed-reload-differs", Detail: fmt.Sprintf("the parsed document of %s loaded twice gives different results (interpolation changed the caller's document): second error %v, %s", escaped, e2, firstDiff(projDump(p1), projDump(p2))), Replay: rep})
+					}
+					// and the interpolation package itself: the same document interpolated twice gives the same document twice
+					lookup := func(k string) (string, bool) { v, ok := env[k]; return v, ok }
+					o1, ie1 := interpolation.Interpolate(parsed, interpolation.Options{LookupValue: lookup})
+					j1, _ := json.Marshal(o1)
+					o2, ie2 := interpolation.Interpolate(parsed, interpolation.Options{LookupValue: lookup})
+					j2, _ := json.Marshal(o2)
+					if (ie1 == nil) != (ie2 == nil) || string(j1) != string(j2) {
+						c.Report(core.Finding{Sig: "interpolate-twice-differs", Detail: fmt.Sprintf("interpolation.Interpolate applied twice to the parsed document of %s gives %s (%v) then %s (%v)", escaped, j1, ie1, j2, ie2), Replay: rep})
+					}
+					switch {
+					case e1 != nil || e2 != nil:
 					case projDump(p1) != projDump(px):
 						c.Report(core.Finding{Sig: "parsed-differs", Detail: fmt.Sprintf("%s loads differently from text and as a parsed document: %s", escaped, firstDiff(projDump(p1), projDump(px))), Replay: rep})
 					}
